@@ -257,7 +257,7 @@ class Script:
             self.realize_new(t[1] if v[0] == "ok" else t[2], v[1], out_lines, created)
 
     # ------------------------------------------------------------ script construction
-    def call(self, owner, m, force_self=None):
+    def call(self, owner, m, force_self=None, force_args=None, force_ret=None):
         r = self.r
         n = self.counts.get(m.abi_name, 0)
         self.counts[m.abi_name] = n + 1
@@ -271,7 +271,7 @@ class Script:
             else:
                 args["self"] = self.value(("struct", owner.name))
         for pn, pt in m.params:
-            args[pn] = self.value(pt)
+            args[pn] = self.value(pt) if force_args is None or pn not in force_args else force_args[pn]
         # no two &mut to the same object, and &mut excludes & to the same object (Rust aliasing rules
         # would make the *driver* the source of UB otherwise)
         muts = []
@@ -290,7 +290,7 @@ class Script:
                 if h in muts or (is_mut and h in used):
                     return self.call_retry(owner, m, n, force_self)
                 (muts if is_mut else used).append(h)
-        ret = self.ret_value(m.ret, m, args)
+        ret = self.ret_value(m.ret, m, args) if force_ret is None else force_ret
         if m.script is None:
             m.script = {"rets": [], "effects": []}
         step = {"kind": "call", "owner": owner, "m": m, "n": n, "args": args, "ret": ret}
